@@ -8,6 +8,7 @@ import sys
 ENGINES = {
     "C05": "engines.c05",
     "C06": "engines.c06",
+    "C07": "engines.c07",
     "C09": "engines.c09",
     "C12": "engines.c12",
     "C13": "engines.c13",
